@@ -24,7 +24,8 @@ GEN_POOLS = {
 def index_specs(draw, symm, max_charges=3, max_size=3, min_charges=1,
                 dual=None):
     pool = GEN_POOLS[symm]
-    k = draw(st.integers(min_charges, min(max_charges, len(pool))))
+    hi = min(max_charges, len(pool))
+    k = draw(st.integers(min(min_charges, hi), hi))
     charges = draw(
         st.lists(st.sampled_from(pool), min_size=k, max_size=k, unique=True)
     )
@@ -253,6 +254,28 @@ def make_blocks(spec):
                 b = b + 1j * rng.normal(size=shape)
         elif kind == "pos":
             b = rng.integers(1, 6, size=shape).astype("float64")
+        elif kind == "lowrank":
+            # exactly rank-deficient matrix blocks: integer outer products
+            m, n = shape
+            r = max(1, min(m, n) - 1)
+            b = np.zeros(shape)
+            for _ in range(r):
+                b = b + np.outer(rng.integers(-3, 4, size=m),
+                                 rng.integers(-3, 4, size=n))
+            if "complex" in dtype:
+                b = b * (1 + 0j) + 1j * np.outer(
+                    rng.integers(-2, 3, size=m), rng.integers(-2, 3, size=n)
+                ) * (1 if r > 1 else 0)
+        elif kind in ("herm", "wellcond"):
+            m, n = shape
+            g = rng.normal(size=shape)
+            if "complex" in dtype:
+                g = g + 1j * rng.normal(size=shape)
+            if m == n and kind == "herm":
+                g = g + g.conj().T
+            if m == n and kind == "wellcond":
+                g = g / max(1.0, np.linalg.norm(g, 2)) + 2.0 * np.eye(m)
+            b = g
         else:
             raise ValueError(kind)
         blocks[tuple(sec)] = np.asarray(b).astype(dtype)
@@ -407,3 +430,76 @@ def aligned_pairs(pair):
                 key = (tuple(sa[i] for i in fa), tuple(sb[i] for i in fb))
                 acc[key] = acc.get(key, 0) + 1
     return n, max(acc.values(), default=0)
+
+
+# ---------------------------------------------------------------- matrices --
+
+
+@st.composite
+def matrix_specs(draw, ferm=None, syms=SYMS4, data=None, square=False,
+                 hermitian=False, max_size=4, lazy=True, dtype=None,
+                 allow_missing=True):
+    """Spec of a symmetric matrix (two legs).
+
+    square=True: every block is square and all blocks are present (column
+    table derived from the row table through the total charge).
+    hermitian=True: legs (ix, conj ix), identity charge, Hermitian blocks."""
+    symm = draw(st.sampled_from(list(syms)))
+    if ferm is None:
+        ferm = draw(st.booleans())
+    if symm == "Z4":
+        ferm = False
+    ix0 = draw(index_specs(symm, max_charges=3, max_size=max_size,
+                           min_charges=draw(st.sampled_from([1, 2, 2, 3]))))
+    if hermitian:
+        ix1 = conj_index_spec(ix0)
+        charge = G.identity(symm)
+        idxs = [ix0, ix1]
+        kind = "herm"
+    elif square:
+        d1 = draw(st.booleans())
+        q = draw(st.sampled_from(GEN_POOLS[symm]))
+        # column charge paired with each row charge
+        cm1 = {}
+        for c0, d in ix0["cm"].items():
+            # signed(c0) + signed(c1) = q  ->  c1
+            t = G.combine(symm, q, G.neg(symm, G.signed(symm, c0, ix0["dual"])))
+            c1 = G.signed(symm, t, d1)
+            cm1[c1] = d
+        ix1 = {"cm": dict(sorted(cm1.items())), "dual": d1}
+        charge = q
+        idxs = [ix0, ix1]
+        kind = "wellcond"
+    else:
+        ix1 = draw(index_specs(symm, max_charges=3, max_size=max_size,
+                               min_charges=draw(st.sampled_from([1, 2, 2, 3]))))
+        idxs = [ix0, ix1]
+        charge = None
+        kind = data or draw(st.sampled_from(["gauss", "gauss", "lowrank"]))
+    if dtype is None:
+        dtype = draw(st.sampled_from(["float64", "complex128"]))
+    spec = draw(array_specs(
+        symm=symm, ferm=ferm, idxs=idxs, charge=charge, dtype=dtype,
+        data=kind, allow_empty=False,
+        sparsity="full" if (square or not allow_missing) else None,
+        phases=None if lazy else []))
+    return spec
+
+
+@st.composite
+def fused_matrix_specs(draw, ferm=None, syms=SYMS4):
+    """a rank 3-4 array and two axis groups covering all axes: fusing gives a
+    matrix whose legs carry sub-index information"""
+    spec = draw(array_specs(ferm=ferm, syms=syms, min_ndim=3, max_ndim=4,
+                            max_size=2, data="gauss", allow_empty=False))
+    nd = len(spec["idxs"])
+    perm = draw(st.permutations(list(range(nd))))
+    k = draw(st.integers(1, nd - 1))
+    return {"x": spec, "groups": [list(perm[:k]), list(perm[k:])]}
+
+
+def build_fused_matrix(case):
+    x = build(case["x"])
+    if not x.blocks:
+        return None
+    return x.fuse(*[tuple(g) for g in case["groups"]])
